@@ -34,6 +34,37 @@ def gen_case(rng, max_depth, max_passes):
     return {"schemas": schemas, "passes": passes}
 
 
+def gen_multi_target_case(rng, max_depth):
+    """one configured type/field given to several targets (objects whose names differ only in case), then a
+    transformation that rewrites references: each target must be rewritten exactly once"""
+    import copy
+    g = irgen.IRGen(rng, max_depth=max_depth, features={"resolving": True})
+    schemas = g.schemas()
+    s = rng.choice(schemas)
+    structs = [o for o in s["objects"] if o["type"].get("k") == "struct"]
+    if not structs:
+        s["objects"].append({"name": "Holder", "type": {"k": "struct", "fields": [{"name": "id", "type": {"k": "scalar", "sk": "string"}, "req": True}]}})
+        structs = [s["objects"][-1]]
+    o = rng.choice(structs)
+    twin_name = o["name"].swapcase() if o["name"].swapcase() != o["name"] else o["name"] + "x"
+    if all(x["name"] != twin_name for x in s["objects"]):
+        s["objects"].append({"name": twin_name, "type": copy.deepcopy(o["type"])})
+    others = [x["name"] for x in s["objects"] if x["name"] not in (o["name"], twin_name)] or [o["name"]]
+    reft = {"k": "ref", "pkg": s["pkg"], "name": rng.choice(others)}
+    shape = rng.choice([reft, {"k": "array", "v": reft}, {"k": "struct", "fields": [{"name": "inner", "type": reft, "req": True}]},
+                        {"k": "map", "i": {"k": "scalar", "sk": "string"}, "v": reft}])
+    kind = rng.choice(["retype_object", "retype_field", "add_fields"])
+    if kind == "retype_object":
+        p1 = {"p": kind, "pkg": s["pkg"], "obj": o["name"], "as": shape}
+    elif kind == "retype_field" and o["type"]["fields"]:
+        p1 = {"p": kind, "pkg": s["pkg"], "obj": o["name"], "fld": rng.choice(o["type"]["fields"])["name"], "as": shape}
+    else:
+        p1 = {"p": "add_fields", "pkg": s["pkg"], "obj": o["name"], "fields": [{"name": "added", "type": shape, "req": True}]}
+    p2 = rng.choice([{"p": "prefix_object_names", "str": "Pre"},
+                     {"p": "rename_object", "pkg": s["pkg"], "obj": reft["name"], "to": "Renamed"}])
+    return {"schemas": schemas, "passes": [p1, p2]}
+
+
 def classify(job, k):
     """describe the culprit pass (index k) of a failing case for the known-findings matcher"""
     p = job["passes"][k]
@@ -65,6 +96,8 @@ def run(ctx, verdict, replay=None, model_ok=True):
         n = 12000 if thorough else 600
         for _ in range(n):
             jobs.append(gen_case(rng, 6 if thorough else 4, 6 if thorough else 4))
+        for _ in range(n // 15):
+            jobs.append(gen_multi_target_case(rng, 4))
     binp = core.build_harness(ctx)
     results = passlib.run_jobs(binp, jobs)
     ctx.log("implementation ran: %d cases" % len(results))
